@@ -1103,8 +1103,14 @@ func vfFRRGenProgram(r *vfRand, o vfFRRGenOpts) vfFRRProgram {
 		case 1:
 			if o.Secrets {
 				s.SecretName, s.SecretNS = vfPick(r, []string{"bgp-secret", "other-secret"}), "metallb-system"
-				if r.Chance(1, 6) {
+				if r.Chance(1, 5) {
 					s.Password = "both"
+					switch r.Intn(4) { // the reference next to the password may be a partial one
+					case 0:
+						s.SecretNS = ""
+					case 1:
+						s.SecretName = ""
+					}
 				}
 			} else {
 				s.Password = "fromsecret"
